@@ -296,13 +296,47 @@ pub fn parent(entry: usize, st: &mut OStats) -> R {
         msg: format!("current_exe: {}", e),
     })?;
     let max = isize::MAX as usize;
-    for start in starts() {
-        let out = std::process::Command::new(&exe)
-            .args([
-                "ovchild",
-                &format!("entry={}", entry),
-                &format!("start={}", start),
-            ])
+    // besides the ordinary environment: the same overflow with an unwritable stderr (a diagnostic that cannot be
+    // printed must not turn the abort into something else)
+    let mut plan: Vec<(usize, u8)> = starts().into_iter().map(|s| (s, 0u8)).collect();
+    for s in [max, max + 1, usize::MAX] {
+        plan.push((s, 1));
+        plan.push((s, 2));
+    }
+    for (start, errmode) in plan {
+        let mut cmd = std::process::Command::new(&exe);
+        cmd.args([
+            "ovchild",
+            &format!("entry={}", entry),
+            &format!("start={}", start),
+        ]);
+        let mut broken_pipe_reader = None;
+        match errmode {
+            1 => match std::fs::OpenOptions::new().write(true).open("/dev/full") {
+                Ok(f) => {
+                    cmd.stderr(f);
+                }
+                Err(_) => continue,
+            },
+            2 => {
+                // a pipe whose read end is closed before the child starts
+                let mut fds = [0i32; 2];
+                extern "C" {
+                    fn pipe(fds: *mut i32) -> i32;
+                }
+                if unsafe { pipe(fds.as_mut_ptr()) } != 0 {
+                    continue;
+                }
+                use std::os::unix::io::FromRawFd;
+                let (r, w) = unsafe { (std::fs::File::from_raw_fd(fds[0]), std::fs::File::from_raw_fd(fds[1])) };
+                drop(r);
+                cmd.stderr(w);
+                broken_pipe_reader = Some(());
+            }
+            _ => {}
+        }
+        let _ = broken_pipe_reader;
+        let out = cmd
             .output()
             .map_err(|e| Viol {
                 props: "",
@@ -310,7 +344,16 @@ pub fn parent(entry: usize, st: &mut OStats) -> R {
                 msg: format!("spawn: {}", e),
             })?;
         let so = String::from_utf8_lossy(&out.stdout).to_string();
-        let what = format!("{} at count {:#x}", ENTRIES[entry], start);
+        let what = format!(
+            "{} at count {:#x}{}",
+            ENTRIES[entry],
+            start,
+            match errmode {
+                1 => " (stderr = /dev/full)",
+                2 => " (stderr = broken pipe)",
+                _ => "",
+            }
+        );
         use std::os::unix::process::ExitStatusExt;
         if so.contains("HARNESS") || !so.contains("BEFORE") {
             return viol(
@@ -416,10 +459,172 @@ pub fn parent(entry: usize, st: &mut OStats) -> R {
         }
         st.counts.bump(&format!("overflow.{}", outcome));
         st.counts.bump("overflow.children");
-        st.cases.insert(hash64(&format!("{}|{}", entry, start)));
+        if errmode != 0 {
+            st.counts.bump("overflow.unwritable-stderr");
+        }
+        st.cases.insert(hash64(&format!("{}|{}|{}", entry, start, errmode)));
         if st.sample.len() < 8 && (start == max + 1 || start == 2) {
             st.sample.push(format!("{} -> {}", what, outcome));
         }
+    }
+    Ok(())
+}
+
+// ---------------------------------------------------------------------------------------------
+// two clones racing at the limit: starting from exactly isize::MAX one clone is allowed, a second one is not --
+// whatever the interleaving, the process must have aborted once both threads have tried.
+
+pub const RACE_ENTRIES: [&str; 3] = ["Arc<T>::clone x2", "ArcBorrow::clone_arc x2", "ThinArc::clone x2"];
+
+#[cfg(triomphe_verif)]
+mod race_hook {
+    use std::cell::Cell;
+    use std::sync::atomic::{AtomicBool, AtomicU8, Ordering::Relaxed};
+    pub static PHASE: AtomicU8 = AtomicU8::new(255);
+    pub static OTHER_DONE: AtomicBool = AtomicBool::new(false);
+    pub static HOLDING: AtomicBool = AtomicBool::new(false);
+    thread_local! {
+        pub static HELD_THREAD: Cell<bool> = const { Cell::new(false) };
+        static ALREADY: Cell<bool> = const { Cell::new(false) };
+    }
+    pub fn on(ev: &triomphe::verif_hooks::Event) {
+        let ph = PHASE.load(Relaxed);
+        if ph == 255 || !HELD_THREAD.with(|h| h.get()) || ALREADY.with(|a| a.get()) {
+            return;
+        }
+        if ev.done != (ph == 1) {
+            return;
+        }
+        ALREADY.with(|a| a.set(true));
+        HOLDING.store(true, Relaxed);
+        // hold this thread at its first count operation until the other thread has finished its clone
+        let mut budget = 50_000_000u64;
+        while !OTHER_DONE.load(Relaxed) && budget > 0 {
+            std::thread::yield_now();
+            budget -= 1;
+        }
+    }
+}
+
+/// phase: 0 = hold thread 1 before its first count operation, 1 = after it, anything else = free-running
+pub fn race_child(entry: usize, phase: u8) -> i32 {
+    let start = isize::MAX as usize;
+    let a: Arc<u64> = Arc::new(5);
+    let t: ThinArc<u32, u16> = ThinArc::from_header_and_slice(1, &[1u16, 2]);
+    let (addr_a, addr_t) = match (learn_addr(&|| {
+        Arc::count(&a);
+    }), learn_addr(&|| {
+        ThinArc::strong_count(&t);
+    })) {
+        (Some(x), Some(y)) => (x, y),
+        _ => (a.heap_ptr() as usize, t.heap_ptr() as usize),
+    };
+    let cell = unsafe { &*((if entry == 2 { addr_t } else { addr_a }) as *const AtomicUsize) };
+    if cell.load(Relaxed) != 1 {
+        println!("HARNESS counter not found");
+        return 3;
+    }
+    cell.store(start, Relaxed);
+    if (entry == 2 && ThinArc::strong_count(&t) != start) || (entry != 2 && Arc::count(&a) != start) {
+        println!("HARNESS counter not found (accessor does not follow the word)");
+        return 3;
+    }
+    #[cfg(triomphe_verif)]
+    {
+        race_hook::PHASE.store(phase, Relaxed);
+        triomphe::verif_hooks::set_hook(Some(race_hook::on));
+    }
+    let _ = phase;
+    println!("BEFORE entry={} start={}", RACE_ENTRIES[entry], start);
+    let _ = std::io::stdout().flush();
+    let go = std::sync::Barrier::new(2);
+    let act = |held: bool| {
+        #[cfg(triomphe_verif)]
+        race_hook::HELD_THREAD.with(|h| h.set(held));
+        let _ = held;
+        go.wait();
+        #[cfg(triomphe_verif)]
+        if !held && race_hook::PHASE.load(Relaxed) != 255 && phase <= 1 {
+            // start only once the other thread is parked at its count operation
+            let mut budget = 50_000_000u64;
+            while !race_hook::HOLDING.load(Relaxed) && budget > 0 {
+                std::thread::yield_now();
+                budget -= 1;
+            }
+        }
+        match entry {
+            0 => std::mem::forget(a.clone()),
+            1 => {
+                let b: ArcBorrow<'_, u64> = a.borrow_arc();
+                std::mem::forget(b.clone_arc())
+            }
+            _ => std::mem::forget(t.clone()),
+        }
+        #[cfg(triomphe_verif)]
+        if !held {
+            race_hook::OTHER_DONE.store(true, Relaxed);
+        }
+    };
+    std::thread::scope(|s| {
+        s.spawn(|| act(true));
+        s.spawn(|| act(false));
+    });
+    println!("AFTER word={}", cell.load(Relaxed));
+    let _ = std::io::stdout().flush();
+    std::process::exit(0);
+}
+
+pub fn race_parent(entry: usize, st: &mut OStats) -> R {
+    let exe = std::env::current_exe().map_err(|e| Viol {
+        props: "",
+        oracle: "harness",
+        msg: format!("current_exe: {}", e),
+    })?;
+    let phases: &[u8] = if cfg!(triomphe_verif) { &[0, 1, 9, 9, 9] } else { &[9, 9, 9, 9] };
+    for (k, phase) in phases.iter().enumerate() {
+        let out = std::process::Command::new(&exe)
+            .args(["ovrace", &format!("entry={}", entry), &format!("phase={}", phase)])
+            .output()
+            .map_err(|e| Viol {
+                props: "",
+                oracle: "harness",
+                msg: format!("spawn: {}", e),
+            })?;
+        let so = String::from_utf8_lossy(&out.stdout).to_string();
+        let what = format!(
+            "{} from exactly isize::MAX, {}",
+            RACE_ENTRIES[entry],
+            match phase {
+                0 => "one thread held before its first count operation until the other is done",
+                1 => "one thread held after its first count operation until the other is done",
+                _ => "free-running",
+            }
+        );
+        use std::os::unix::process::ExitStatusExt;
+        if so.contains("HARNESS") || !so.contains("BEFORE") {
+            return viol("", "harness", format!("{}: child could not set up: {}", what, so.trim()));
+        }
+        ensure!(
+            !so.contains("AFTER"),
+            "C16",
+            "overflow",
+            "{}: both clones returned a handle ({}): the count passed isize::MAX without an abort",
+            what,
+            so.lines().find(|l| l.starts_with("AFTER")).unwrap_or("")
+        );
+        match out.status.signal() {
+            Some(6) | Some(4) => {}
+            other => {
+                return viol(
+                    "C16",
+                    "overflow",
+                    format!("{}: the child ended with signal {:?} / status {:?} instead of aborting", what, other, out.status.code()),
+                )
+            }
+        }
+        st.counts.bump("overflow.race.aborted");
+        st.counts.bump("overflow.children");
+        st.cases.insert(hash64(&format!("race|{}|{}|{}", entry, phase, k)));
     }
     Ok(())
 }
